@@ -38,4 +38,54 @@ theorem badCode_regenerated (code : Nat) :
     LemoGen.Net.badCodeCond code = decide (code > Frame.maxCode) := by
   simp [LemoGen.Net.badCodeCond, Frame.maxCode]
 
+/-! ### the tie proper: the MODEL FUNCTIONS rewritten over the generated conditions (review round 8, R2: the theorems above
+    relate the generated definitions to the model's CONSTANTS only) -/
+
+/-- `Frame.readConn` (the reader `parseFixed_total` / `run_alloc_cumulative` are about): once the 6-byte head is there and the magic
+    matches, a non-zero announced length `len` is refused exactly when the regenerated `readConn` guard fires; otherwise the content read follows -/
+theorem readConn_regenerated {σ : Type} (R : Frame.Reader σ) (st st1 : σ) (hd : Frame.Bytes) (len : Nat)
+    (h6 : R.readFull 6 st = some (hd, st1))
+    (hm : ¬ (hd.getD 0 0 ≠ Frame.magic0 ∨ hd.getD 1 0 ≠ Frame.magic1))
+    (hlen : Frame.be32 (hd.getD 2 0) (hd.getD 3 0) (hd.getD 4 0) (hd.getD 5 0) = len) (h0 : len ≠ 0) :
+    Frame.readConn R Frame.realCfg st =
+      (if LemoGen.Net.frameTooLongCond len then .err .overflow 6
+       else match R.readFull len st1 with
+         | none => .needMore (6 + len)
+         | some (content, st2) => .content content st2 (6 + len)) := by
+  unfold Frame.readConn
+  rw [h6]
+  simp only [hm, if_false, hlen, h0, LemoGen.Net.frameTooLongCond, Frame.realCfg]
+  by_cases h1 : len > 26214400 <;> simp [h1]
+  cases R.readFull len st1 <;> rfl
+
+/-- `Frame.hsStepFixed` (the LIVE pre-handshake reader, bounded by MaxPackageLength since 529e8a0): once prefix and length field are
+    there and the magic matches, the announced length `len` is refused exactly when the regenerated `readHandshakeBuf` guard fires -/
+theorem hsStepFixed_regenerated {σ : Type} (pointOk macOk : Frame.Bytes → Bool) (R : Frame.Reader σ) (st st1 st2 : σ)
+    (p l : Frame.Bytes) (len : Nat) (h2 : R.readFull 2 st = some (p, st1))
+    (hm : ¬ (p.getD 0 0 ≠ Frame.magic0 ∨ p.getD 1 0 ≠ Frame.magic1))
+    (h4 : R.readFull 4 st1 = some (l, st2))
+    (hlen : Frame.be32 (l.getD 0 0) (l.getD 1 0) (l.getD 2 0) (l.getD 3 0) = len) :
+    Frame.hsStepFixed pointOk macOk Frame.realCfg R st =
+      (if LemoGen.Net.hsFrameBadLenCond len then ⟨.err .unavailable, 6⟩
+       else match R.readFull len st2 with
+         | none => ⟨.needMore, 6 + len⟩
+         | some (c, _) =>
+           ⟨(Frame.eciesOpenFixed pointOk macOk c).1, 6 + len + (Frame.eciesOpenFixed pointOk macOk c).2⟩) := by
+  unfold Frame.hsStepFixed Frame.hsStepWith
+  rw [h2]
+  simp only [hm, if_false]
+  rw [h4]
+  simp only [hlen, LemoGen.Net.hsFrameBadLenCond, Frame.realCfg]
+  by_cases h0 : len = 0 <;> by_cases h1 : len > 26214400 <;> simp [h0, h1]
+  cases R.readFull len st2 <;> rfl
+
+/-- `Frame.handleWith`: the `.badCode` answer is given exactly when the regenerated `Msg.CheckCode` test fires -/
+theorem handleWith_regenerated (unpack : Frame.Bytes → Frame.Unpacked) (content payload : Frame.Bytes) (code : Nat)
+    (hu : unpack content = .ok code payload) :
+    Frame.handleWith unpack content =
+      (if LemoGen.Net.badCodeCond code then .err .badCode
+       else if code = Frame.heartbeatCode then .heartbeat else .deliver code payload) := by
+  simp only [Frame.handleWith, hu, LemoGen.Net.badCodeCond, Frame.maxCode]
+  by_cases h : code > 31 <;> simp [h]
+
 end LemoProofs.NetTieFrame
